@@ -88,14 +88,6 @@ func (b *payPerInterval) OnUpdate(node store.Node, peers []store.Node) (store.Ba
 
 	total := new(big.Int)
 	credited := make([]store.NodeID, 0, len(peers))
-	for _, peer := range peers {
-		if err := b.Store.AddNodeBalance(peer.ID, credit); err != nil {
-			// Only bill the client for credit that a peer actually received.
-			continue
-		}
-		credited = append(credited, peer.ID)
-		total.Add(total, credit)
-	}
 	// undo takes this update's charge back, so that a failed update does not
 	// leave credit behind that nobody paid for.
 	undo := func(debited bool) {
@@ -105,6 +97,18 @@ func (b *payPerInterval) OnUpdate(node store.Node, peers []store.Node) (store.Ba
 		if debited {
 			b.Store.AddNodeBalance(node.ID, total)
 		}
+	}
+	for _, peer := range peers {
+		if err := b.Store.AddNodeBalance(peer.ID, credit); err != nil {
+			// An update that is accepted pays every peer. Carrying on without
+			// this one would move the client's check-in past time that this
+			// peer was never paid for: fail the update as a whole, the next
+			// one bills the same stretch again.
+			undo(false)
+			return store.Balance{}, err
+		}
+		credited = append(credited, peer.ID)
+		total.Add(total, credit)
 	}
 	if total.Cmp(new(big.Int)) == 0 {
 		// Nothing was billed.
